@@ -9,7 +9,7 @@ import ast
 
 import z3
 
-from vlib.pyvc import interp as I, source, symstruct as S, gharness as G
+from vlib.pyvc import interp as I, smt, source, symstruct as S, gharness as G
 
 Bag = G.Bag
 W = G.W
@@ -346,3 +346,103 @@ def c01_boolean_conversion(run):
                        replay=dict(replayed=False, problems=problems, hint="BoolCFGLM(add_EOS(g)) with Float weights such as 1e-200"), signature="BoolCFGLM:boolean-model")
     else:
         run.obligation(name, "proved", backend="pyvc", detail=f"{n} configurations (alg x EOS-present x Boolean-input): the parser always receives a Boolean-weighted grammar")
+
+
+def c01_mask_support(run):
+    """C01/cfglm.BoolCFGLM.p_next/mask-is-support[earley|cky]: the parsers' contract for next_token_weights is `a chart over tokens
+    that may carry explicit zero (False) entries` (Earley's columns register every token that was ever asked for; the CKY outside
+    pass scores the whole vocabulary).  Postcondition of p_next, for both back-ends: the returned mask has exactly the tokens whose
+    entry is non-zero.  The real cfglm module is loaded; `self.model` is the parser itself (earley) or the real _CKYModel adapter
+    around it (cky); the chart is a two-token chart with symbolic Boolean entries."""
+    rel = "genlm/grammar/cfglm.py"
+    fn = source.find(rel, "BoolCFGLM.p_next")
+    run.function_under_contract("genlm.grammar.cfglm.BoolCFGLM.p_next", source.sha(fn))
+    run.function_under_contract("genlm.grammar.cfglm._CKYModel.next_token_weights", source.sha(source.find(rel, "_CKYModel.next_token_weights")))
+    for alg in ("earley", "cky"):
+        name = f"C01/cfglm.BoolCFGLM.p_next/mask-is-support[{alg}]"
+
+        class ChartTok:
+            def __init__(self, entries, trimmed=False):
+                self.entries = entries
+
+            def __pyvc_getattr__(self, interp, nm, node):
+                if nm == "trim":
+                    # contract of Chart.trim: a new chart without the zero entries
+                    return I.Native("trim", lambda i2, a, k: ChartTok([(t, b) for t, b in self.entries if i2.path.decide(b)]))
+                if nm in ("keys",):
+                    return I.Native("keys", lambda i2, a, k: [t for t, _ in self.entries])
+                if nm == "items":
+                    return I.Native("items", lambda i2, a, k: [(t, I.Z(b)) for t, b in self.entries])
+                raise I.OutOfSubset("chart." + nm)
+
+            def __pyvc_iter__(self, interp):
+                return [t for t, _ in self.entries]
+
+            def __pyvc_getitem__(self, interp, k, node):
+                for t, b in self.entries:
+                    if t == k:
+                        return I.Z(b)
+                return False
+
+        def harness(path, alg=alg):
+            it = I.Interp(path)
+            b1, b2 = z3.Bool("entry_t1"), z3.Bool("entry_t2")
+            chart = ChartTok([("t1", b1), ("t2", b2)])
+            parser = Bag(next_token_weights=I.Native("ntw", lambda i2, a, k: chart), chart=I.Native("chart", lambda i2, a, k: "CHART"),
+                         clear_cache=I.Native("cc", lambda i2, a, k: None))
+            it.natives["genlm.grammar.semiring.Float"] = Bag(chart=I.Native("Float.chart", lambda i2, a, k: ("FloatChart", dict(a[0]) if a else {})))
+            it.natives["genlm.grammar.lm.LM"] = I.ClassObj("LM", [], "lm")
+            env = it.load_module(source.module_source(rel), "cfglm")
+            if alg == "earley":
+                model = parser
+            else:
+                cls = env.get("_CKYModel")
+                model = I.Obj(cls)
+                model.fields["parser"] = parser
+            selfobj = Bag(V={"t1", "t2"}, model=model)
+            f = env.get("BoolCFGLM").lookup("p_next")[0]
+            ret = it.call_func(f, [selfobj, ("t1",)], {})
+            return ret, b1, b2
+
+        try:
+            results = I.explore(harness)
+        except (I.OutOfSubset, I.PyRaise) as e:
+            run.obligation(name, "out-of-subset", detail=str(e))
+            continue
+        bad = None
+        for path, (ret, b1, b2) in results:
+            if not (isinstance(ret, tuple) and ret[0] == "FloatChart"):
+                bad = f"returns {ret!r}, not a Float chart"
+                break
+            keys = set(ret[1])
+            for t, b in (("t1", b1), ("t2", b2)):
+                on = smt.prove(list(path.pc), b)["verdict"] == "proved"
+                off = smt.prove(list(path.pc), z3.Not(b))["verdict"] == "proved"
+                if not (on or off):
+                    bad = f"the path does not decide whether {t} has a non-zero entry, yet returns {sorted(keys)}"
+                elif on != (t in keys):
+                    bad = f"token {t}: entry is {'non-zero' if on else 'zero (False)'} but the mask {'contains' if t in keys else 'omits'} it"
+            if any(v != 1 for v in ret[1].values()):
+                bad = bad or f"mask values {ret[1]!r} are not all 1"
+            if bad:
+                break
+        if bad is None and len(results) >= 4:
+            run.obligation(name, "proved", backend="pyvc+z3", detail=f"{len(results)} paths over (entry t1 zero?, entry t2 zero?): mask = tokens with non-zero entry, value 1")
+        elif bad is None:
+            run.obligation(name, "out-of-subset", detail=f"vacuous: {len(results)} paths")
+        else:
+            replay = dict(replayed=False, why=bad)
+            try:
+                from genlm.grammar.cfglm import BoolCFGLM
+                from genlm.grammar.cfg import CFG
+                from genlm.grammar.semiring import Boolean
+                g = CFG.from_string("1: S -> a S b\n1: S -> c", Boolean)
+                lm = BoolCFGLM(g, alg=alg)
+                first = sorted(lm.p_next(("a",)).keys())
+                lm.p_next(("a", "b"))
+                again = sorted(lm.p_next(("a",)).keys())
+                replay.update(input="S -> a S b | c ; p_next(('a',)), p_next(('a','b')), p_next(('a',))", first=repr(first), again=repr(again), expected="['a', 'c']")
+                replay["replayed"] = first != ["a", "c"] or again != ["a", "c"]
+            except Exception as e:  # noqa: BLE001
+                replay.update(native_error=repr(e))
+            run.obligation(name, "refuted", backend="pyvc+z3", detail=bad, replay=replay, signature=f"p_next:mask-is-support:{alg}")
